@@ -65,6 +65,14 @@ claim("C15",
       "Theorems label_parse_dump (every four-part label text type:class:name:flavour without further colons - any class, spaces / punctuation, empty flavour - parses to exactly those fields and dumps back to exactly that text), parseLabel_dump_fixpoint (dump of any accepted label re-parses to the same label), candidates_iff (the candidates of a lookup are exactly the records of the requested kind and direction whose dumped label equals the text), candidates_error_iff / candidates_error_database (DatabaseError iff there is none), loaded_label_dump (a record loaded under a four-part label line dumps to that line's text). Tied to Label.parse/dump, Database.get_random and impersonate_mtu(raw_label=..) by label-text streams, generated databases with the same label across kinds and directions, and >= 40 seeded draws per record so that the set of returned records must equal the candidate set.",
       BASE_NOTE + "'can return every such record' is about random.choice: the model gives the candidate list, the harness checks by repeated seeded draws that each candidate is returned (miss probability < 1e-16 per lookup). impersonate_tcp by label is exercised with C05.",
       "Lean 4 round-trip and filter-characterisation proofs + differential correspondence with repeated seeded draws", "5 C15")
+claim("C16",
+      "Theorems tcpMatchObj_eq / findLoopObj_eq / fingerprintTcpObj_eq: the model that threads the per-call TCPPacketSignature object with its window-multiplier cache through tcp_signatures_match and the record loop exactly as the code does (cache filled lazily, only in the mss*N / mtu*N window branches) returns, for every database, packet signature, record order and max_dist, what the cache-free definitions of C01 / C02 / C17 return, keeps the cache coherent and never changes a field; repeated_match_stable; across calls history_independent / repeat_stable / only_load_changes / apiRun_db (C11): a result depends on the history only through the live database. Tied to the code by call histories over input pools (same MSS / header shape, different windows and peer MSS), every input raw / as parsed Packet / twice on the same object, interleaved with impersonations and reloads of three databases; every step compared with the pure model.",
+      BASE_NOTE + "Interpretive choice: TCPPacketSignature.received (receive time) is clock metadata, not part of the result. Module-level state a change might introduce (caches keyed by anything) is not in the model by construction - it is what the history correspondence is there to expose.",
+      "Lean 4 refinement proof (cache-threading model = pure model, by induction over the record list) + differential correspondence on call histories", "5 C16")
+claim("C12",
+      "Theorems call_frame / impMtu_world_frame / run_frame over an explicit store of caller objects (packets as option list + everything else, buffers as bytes + consumed offset, the database): every call except impersonate_mtu leaves the store unchanged, impersonate_mtu changes only the option list of the packet it is given, lifted to arbitrary call sequences; db_untouched (no call but load alters a record, label or signature; from C11) and C08's impMtu_frame for the content of the rewritten option list. DECISIVE for Python aliasing: a snapshot oracle on the real objects - before every call a field-level snapshot (layer identities, explicit fields deep-copied, overloaded fields, raw caches) plus a Scapy deep copy; afterwards fields, identities, bytes(packet), packet.command(), buffer bytes / offsets / extractability and the identity + repr of every database record / label / signature must be unchanged, and impersonate_tcp's result must share no layer object with its input.",
+      BASE_NOTE + "PARTIAL: that pyp0f works on copies (copy_packet(assemble=True), copy_buffer, fresh layers) is stated by the model and checked by the snapshots, not derived; aliasing inside Scapy is outside the model.",
+      "Lean 4 frame theorems over an explicit object store + before/after deep-snapshot oracle on the real objects across random call sequences", "5 C12")
 
 ALL = [f"C{i:02d}" for i in range(1, 19)]
 checks = []
